@@ -11,7 +11,7 @@ Decided:
   C20.deser     the four filter lists deserialize through the one-or-many helpers             [T9]
 Not decided: glob semantics (wax), path normalisation of what is matched.
 """
-from .. import thir, mir, absint
+from .. import thir, mir, absint, interproc
 from ..thir import callee_of
 
 SPEC_FUNCS = {
@@ -188,6 +188,56 @@ def glob(R, ctx):
          "no call of Glob::partition_or_tree" if not bad else "%s calls Glob::partition_or_tree: a pattern without wildcard becomes `<pattern>/**`" % bad[0][0]["path"])
 
 
+def filter_path(R, ctx):
+    rid = "C20.path"
+    lib = ctx.lib
+    R.rule(rid, "in Worker::apply_rules (helpers of the file included) the path handed to the two filter predicates is the work item's own "
+                "source path -- the same slot the worker reads the file from -- and reaches them without any path arithmetic "
+                "(strip_prefix, join, file_name, parent, with_extension, canonicalize, components, ...): patterns are written against the "
+                "path of the file as the user names it")
+    fn = lib.fn("frontend::worker::Worker::apply_rules")
+    adv = lib.fn("frontend::worker::Worker::advance_work")
+    if not R.require(rid, "anchor", fn is not None and adv is not None, "", "Worker::apply_rules / advance_work not found"):
+        return
+    # the slot the file content is read from
+    read_slots = set()
+    for f in interproc.scope(lib, adv):
+        fa = ctx.an.fa(f["path"])
+        for c in thir.calls(f):
+            if c.get("fname") in ("get", "read", "read_to_string") and "Resources" in ((callee_of(c) or "") + (c.get("fn") or "")) and len(c["args"]) > 1:
+                read_slots |= {o for o in fa.origins(c["args"][1]) if o[0].startswith("frontend::work_item::")}
+    if not R.require(rid, "anchor:read-slot", len(read_slots) >= 1, ctx.where(adv), "slot(s) the source text is read from: %s" % sorted(read_slots)):
+        return
+    TRANSFORMS = {"strip_prefix", "join", "file_name", "file_stem", "parent", "with_extension", "with_file_name", "canonicalize", "components", "ancestors",
+                  "diff_paths", "relative_to", "normalize_path", "to_lowercase", "replace", "trim_start_matches", "push", "pop", "set_extension", "set_file_name"}
+    preds = {lib.fn(p)["path"] for p in SPEC_FUNCS if lib.fn(p) is not None}
+    n = 0
+    for f in interproc.scope(lib, fn):
+        fa = ctx.an.fa(f["path"])
+        for c in thir.calls(f):
+            q = lib.fn(callee_of(c) or "")
+            if q is None or q["path"] not in preds or len(c["args"]) < 2:
+                continue
+            n += 1
+            arg = c["args"][1]
+            slots = {o for o in fa.origins(arg) if o[0].startswith("frontend::work_item::")}
+            foreign = sorted(o for o in fa.origins(arg) if o[0] != "#param" and not o[0].startswith("frontend::work_item::"))
+            srcs = list(fa.source_calls(arg))
+            calls_ = {y.get("fname") for y in srcs}
+            for y in srcs:  # calls made inside closures handed to the calls of the chain (`.and_then(|l| source.strip_prefix(l).ok())`)
+                for a_ in y.get("args", []):
+                    if a_.get("k") == "Closure" and a_.get("body") and a_["body"].get("body"):
+                        calls_ |= {z.get("fname") for z in thir.walk(a_["body"]["body"]) if z.get("k") == "Call"}
+            bad = sorted(calls_ & TRANSFORMS)
+            if foreign:
+                bad = bad + ["data from %s.%s" % (o[0].split("::")[-1], o[1]) for o in foreign]
+            ok = bool(slots & read_slots) and not bad
+            R.ob(rid, "%s|argument-is-the-source-path" % q["path"].split("::")[-1], ok, ctx.where(f, c.get("ln")),
+                 "the filter sees the item's source path as it is" if ok else
+                 ("the path given to the filter is computed with %s: patterns anchored on the real path stop matching" % bad if bad else "the path given to the filter does not come from the item's source slot %s" % sorted(read_slots)))
+    R.require(rid, "floor", n >= 2, ctx.where(fn), "%d filter predicate calls" % n)
+
+
 def run(R, ctx):
     R.explanation = (
         "The two filter predicates are evaluated (sa/peval.py) on all 7x7 apply/skip list states built from a matching and a non-matching "
@@ -199,3 +249,4 @@ def run(R, ctx):
     dominate(R, ctx)
     deser(R, ctx)
     glob(R, ctx)
+    filter_path(R, ctx)
